@@ -43,6 +43,7 @@ const (
 var c18UncleHash = common.HexToHash("0x1dcc4de8dec75d7aab85b567b6ccd41ad312451b948a7413f0a142fd40d49347")
 
 type c18BscChain struct {
+	chainID, epoch, first uint64
 	keyOf     map[common.Address]*ecdsa.PrivateKey
 	addrs     []common.Address
 	announced map[uint64][]common.Address // epoch height -> set announced in its extra data
@@ -135,7 +136,13 @@ func c18Has(as []common.Address, a common.Address) bool {
 }
 
 func newC18BscChain() *c18BscChain {
-	c := &c18BscChain{keyOf: map[common.Address]*ecdsa.PrivateKey{}, announced: map[uint64][]common.Address{},
+	return newC18BscChainAt(c18BscChainID, c18BscEpoch, c18BscFirst, c18BscLast-c18BscFirst+1)
+}
+
+// a chain of `count` headers from height `first` (an epoch height) with the given chain id and epoch; the heights may
+// sit at the top of the uint64 range
+func newC18BscChainAt(chainID, epoch, first uint64, count int) *c18BscChain {
+	c := &c18BscChain{chainID: chainID, epoch: epoch, first: first, keyOf: map[common.Address]*ecdsa.PrivateKey{}, announced: map[uint64][]common.Address{},
 		inForce: map[uint64][]common.Address{}, sealer: map[uint64]common.Address{}, hdr: map[uint64]*bsctypes.Header{}, newcomer: map[uint64]bool{}}
 	for i := 0; len(c.addrs) < 10; i++ {
 		seed := sha256.Sum256([]byte{'c', '1', '8', 'b', 's', 'c', byte(i)})
@@ -149,18 +156,22 @@ func newC18BscChain() *c18BscChain {
 	}
 	a := c.addrs
 	s0 := []common.Address{a[0], a[1], a[2]}
-	c.announced[20] = []common.Address{a[2], a[3], a[4], a[5], a[6]}
-	c.announced[30] = []common.Address{a[0], a[1], a[3]}
-	c.announced[40] = []common.Address{a[4], a[5], a[6], a[7], a[8], a[9], a[1]}
+	sets := [][]common.Address{{a[2], a[3], a[4], a[5], a[6]}, {a[0], a[1], a[3]}, {a[4], a[5], a[6], a[7], a[8], a[9], a[1]}}
 	cur, prev := s0, s0
 	var pending []common.Address
 	var parent *bsctypes.Header
-	for n := uint64(c18BscFirst); n <= c18BscLast; n++ {
+	nEpoch := 0
+	for i := 0; i < count; i++ {
+		n := first + uint64(i)
+		if n%epoch == 0 {
+			c.announced[n] = sets[nEpoch%len(sets)]
+			nEpoch++
+		}
 		c.inForce[n] = cur
 		limit := uint64(len(cur)/2 + 1)
 		recent := func(x common.Address) bool {
-			for h := n - 1; h >= c18BscFirst && h+limit > n; h-- {
-				if c.sealer[h] == x {
+			for d := uint64(1); d < limit && d <= n-first; d++ {
+				if c.sealer[n-d] == x {
 					return true
 				}
 			}
@@ -170,10 +181,10 @@ func newC18BscChain() *c18BscChain {
 		inturn := sorted[n%uint64(len(sorted))]
 		var signer common.Address
 		picked := false
-		if n > c18BscFirst && !c18SameSet(prev, cur) && !c18Has(prev, inturn) && !recent(inturn) {
+		if n > first && !c18SameSet(prev, cur) && !c18Has(prev, inturn) && !recent(inturn) {
 			signer, picked = inturn, true
 		}
-		if !picked && n > c18BscFirst && !c18SameSet(prev, cur) { // first header after a switch: a newcomer
+		if !picked && n > first && !c18SameSet(prev, cur) { // first header after a switch: a newcomer
 			for _, x := range sorted {
 				if !c18Has(prev, x) && !recent(x) {
 					signer, picked = x, true
@@ -189,11 +200,11 @@ func newC18BscChain() *c18BscChain {
 				signer, picked = x, true
 			}
 		}
-		c.newcomer[n] = n > c18BscFirst && !c18SameSet(prev, cur) && !c18Has(prev, signer)
+		c.newcomer[n] = n > first && !c18SameSet(prev, cur) && !c18Has(prev, signer)
 		prev = cur
 		extra := make([]byte, 32)
 		copy(extra, []byte("c18 generated bsc chain"))
-		if n%c18BscEpoch == 0 {
+		if n%epoch == 0 {
 			for _, x := range c.announced[n] {
 				extra = append(extra, x.Bytes()...)
 			}
@@ -215,20 +226,20 @@ func newC18BscChain() *c18BscChain {
 			Height:     clienttypes.NewHeight(0, n),
 			ParentHash: parentHash, UncleHash: c18UncleHash.Bytes(), Coinbase: signer.Bytes(),
 			Root: root[:], TxHash: txh[:], ReceiptHash: rch[:], Difficulty: diff,
-			GasLimit: 30000000, GasUsed: 21000 * n, Time: c18BscT0 + 3*(n-c18BscFirst),
+			GasLimit: 30000000, GasUsed: 21000 * (n - first + 1), Time: c18BscT0 + 3*(n-first),
 			Extra: extra, MixDigest: make([]byte, 32), Nonce: make([]byte, 8),
 		}
-		sig, err := crypto.Sign(c18BscSealHash(h, c18BscChainID).Bytes(), c.keyOf[signer])
+		sig, err := crypto.Sign(c18BscSealHash(h, chainID).Bytes(), c.keyOf[signer])
 		if err != nil {
 			panic(err)
 		}
 		copy(h.Extra[len(h.Extra)-65:], sig)
 		c.hdr[n], c.sealer[n], parent = h, signer, h
 		// the client applies the switch while processing the header at epoch + len(cur)/2
-		if n%c18BscEpoch == 0 {
+		if n%epoch == 0 {
 			pending = c.announced[n]
 		}
-		if pending != nil && n%c18BscEpoch == uint64(len(cur)/2) {
+		if pending != nil && n%epoch == uint64(len(cur)/2) {
 			cur = pending
 		}
 	}
@@ -237,11 +248,24 @@ func newC18BscChain() *c18BscChain {
 
 // client state installed at generated epoch height n: the validators in force there, NOT the announced ones
 func (c *c18BscChain) state(n uint64) *bsctypes.ClientState {
-	return &bsctypes.ClientState{Header: *c.hdr[n], ChainId: c18BscChainID, Epoch: c18BscEpoch, BlockInteval: 3,
+	return &bsctypes.ClientState{Header: *c.hdr[n], ChainId: c.chainID, Epoch: c.epoch, BlockInteval: 3,
 		Validators: c18AddrBytes(c.inForce[n]), ContractAddress: []byte("0x00"), TrustingPeriod: 1000000}
 }
 
 func (c *c18BscChain) cons(n uint64) *bsctypes.ConsensusState {
 	h := c.hdr[n]
 	return &bsctypes.ConsensusState{Timestamp: h.Time, Height: h.Height, Root: h.Root}
+}
+
+// the same states under a revision number ≠ 0 (the seal does not cover the revision)
+func (c *c18BscChain) stateRev(n, rev uint64) *bsctypes.ClientState {
+	st := c.state(n)
+	st.Header.Height.RevisionNumber = rev
+	return st
+}
+
+func (c *c18BscChain) consRev(n, rev uint64) *bsctypes.ConsensusState {
+	k := c.cons(n)
+	k.Height.RevisionNumber = rev
+	return k
 }
